@@ -12,3 +12,14 @@ package exported
 
 //@ contract interface Acknowledgement.Acknowledgement
 //@   ensures result == ackBytes(self)
+
+// ---- commitment roots (C18): a root is its hash bytes; Empty() means the hash is empty. The only implementation,
+// 23-commitment/types.MerkleRoot, is verified against the same two clauses.
+
+//@ spec func rootHash(r iface) string
+
+//@ contract interface Root.GetHash
+//@   ensures str(result) == rootHash(self)
+
+//@ contract interface Root.Empty
+//@   ensures result == (rootHash(self) == "")
